@@ -195,6 +195,16 @@ def oracle_C14(rec):
     mine = [int(i) for i in rec.out["surv"]]
     if sorted(fb) == sorted(mine):
         return []
+    # ties up to rounding at some removal step may legitimately be resolved differently by the two engines
+    F = rec.inp["F"]
+    label = rec.cfg["metric"]
+    if label in ("pcd", "mnn", "2nn") and rec.cfg.get("trunc") and len(F) > F.shape[1]:
+        nr = len(F) - len(mine)
+        if len(np.unique(F, axis=0)) < len(F) or comp_crowd.coordinate_ties(F):
+            return []
+        _, tie_free, _ = comp_crowd.ref_greedy(F, label, nr + 1)
+        if not tie_free:
+            return []
     # different sets are legitimate only when the cut goes through (near-)equal crowding values
     for fr, kept, vals, nr in _split_fronts(rec):
         pos = {p: i for i, p in enumerate(fr)}
